@@ -214,6 +214,13 @@ func longPayloadCases(g *Gen, o *Out, thorough bool) {
 }
 
 func famC03(g *Gen, o *Out, n int, thorough bool) {
+	type heldIndex struct {
+		line string
+		idx  index.Index
+		qs   []cid.Cid
+	}
+	var heldPrev, heldNow []heldIndex
+
 	longPayloadCases(g, o, thorough)
 	for c := 0; c < n; c++ {
 		maxB := 6
@@ -278,10 +285,21 @@ func famC03(g *Gen, o *Out, n int, thorough bool) {
 				if err == nil {
 					res += " get=" + queryIndex(idx, qs) + " each=" + eachIndex(idx)
 				}
-				o.Line(fmt.Sprintf("idx kind=%s codec=%s %s", kind, codec, desc), res)
+				line := fmt.Sprintf("idx kind=%s codec=%s %s", kind, codec, desc)
+				o.Line(line, res)
 				o.Count("idx/" + rk + "/" + codec + "/v" + fmt.Sprint(ver))
+				if err == nil && rk == "seek" {
+					heldNow = append(heldNow, heldIndex{line, idx, qs})
+				}
 			}
 		}
+		// an index is a value: the indexes generated for the PREVIOUS archive must answer exactly as they
+		// did, now that other indexes have been generated in the same process (no shared buffers)
+		for _, h := range heldPrev {
+			o.Line(h.line, "open=ok get="+queryIndex(h.idx, h.qs)+" each="+eachIndex(h.idx))
+			o.Count("idx/requeried-after-later-generations")
+		}
+		heldPrev, heldNow = heldNow, nil
 		// ReadOrGenerateIndex: generated for a CARv1 and an index-less CARv2 (under the caller's options),
 		// read back verbatim for a CARv2 that carries one (whatever the caller asks for)
 		for _, codec := range []string{"sorted", "mh"} {
